@@ -450,7 +450,7 @@ func c05FuncMap(w *World, r *Report) {
 		ok := len(deleted[k]) > 0
 		if ok {
 			for _, rp := range g.classifyReturns() {
-				if ex, _ := g.PathExists(posOf(txt), posOf(rp.Ret), avoidInstrs(deleted[k]...)); ex {
+				if ex, _ := g.PathExists(posOf(txt), retPos(rp), avoidInstrs(deleted[k]...)); ex {
 					ok = false
 				}
 			}
